@@ -1,6 +1,7 @@
 import DispatchVerif.Core.IoP4
 import DispatchVerif.Core.IoW2
 import DispatchVerif.Core.IoCh
+import DispatchVerif.Core.IoHold
 /-! # C14 — dispatch I/O delivers every byte once, in order; each operation completes once (read and write paths)
 
 `IoP` models one stream READ operation of `src/io.c`: the buffer sizing at the top of `_dispatch_operation_perform`,
@@ -82,5 +83,41 @@ theorem barrier_runs_between {s : IoCh.St} (h : IoCh.Reachable s) (j : Nat) (hn 
 /-- every move of the trace replay is a step of that model -/
 theorem barrier_replay_sound (s s' : IoCh.St) (e : IoCh.Ev) (h : IoCh.exec s e = some s') : IoCh.Step s s' ∨ s' = s :=
   IoCh.exec_sound s s' e h
+
+/-! ## the cleanup handler runs after all handlers (`IoHold`)
+
+Who keeps the descriptor entry alive: lookups, open channels, operation objects, handler calls until they have returned, stream
+sources being cancelled - one suspension of the close queue each; the cleanup handlers wait on that queue. Since F22 / F25 every
+handler call that is submitted while its channel still holds the entry takes a hold of its own (zero-length operations and
+operations cancelled before they joined the entry included); the model has exactly these holders. -/
+
+/-- **the cleanup handlers are submitted only after every handler call ever submitted on the descriptor has returned**, with no
+    channel open, no operation alive, and the cancellation handler of every stream source run (the descriptor is no longer
+    monitored) - for every history of lookups, channels, operations, deliveries, closes. -/
+theorem cleanup_after_all_handlers {s s' : IoHold.St} {k : IoHold.K} (h : IoHold.Reachable s) (hs : IoHold.Step s k s')
+    (hc : s.cleaned = false) (hc' : s'.cleaned = true) :
+    s.chans = [] ∧ s.ops = [] ∧ s.running = [] ∧ s.dels = [] ∧ s.srcs = 0 ∧ ∀ (d : IoHold.Call), d ∈ s.submitted → d ∈ s.returned :=
+  IoHold.cleanup_after_all_handlers h hs hc hc'
+
+/-- **after the cleanup nothing happens on the entry any more**: no handler call is submitted or started, the cleanup is not
+    repeated ("exactly once") -/
+theorem cleanup_is_final {s s' : IoHold.St} {k : IoHold.K} (h : IoHold.Reachable s) (hc : s.cleaned = true) : ¬ IoHold.Step s k s' :=
+  IoHold.cleaned_is_final h hc
+
+/-- the replay of recorded close-queue histories accepts every run of the model (so a refused record is not one), and in an
+    accepted record a cleanup handler appears only with no handler call in progress, none begins after it -/
+theorem cleanup_replay_complete {s s' : IoHold.St} {k : IoHold.K} (h : IoHold.Reachable s) (hs : IoHold.Step s k s') :
+    IoHold.arun (IoHold.abs s) (IoHold.evs k) = some (IoHold.abs s') :=
+  IoHold.replay_complete h hs
+
+theorem cleanup_replay_quiet (a a' : IoHold.A) (h : IoHold.astep a .clean = some a') (hinv : a.running ≤ a.count) :
+    a.running = 0 ∧ a'.cleaned = true ∧ IoHold.astep a' .hbegin = none :=
+  ⟨(IoHold.replay_clean_quiet a a' h hinv).1, (IoHold.replay_clean_quiet a a' h hinv).2,
+   IoHold.replay_no_begin_after_clean a' (IoHold.replay_clean_quiet a a' h hinv).2⟩
+
+/-- non-vacuity: two channels on one descriptor, an operation with two handler calls, a zero-length one, a stream source - the
+    model reaches the cleanup with all three handler calls returned -/
+theorem cleanup_reachable : ∃ s, IoHold.run {} IoHold.witness = some s ∧ s.cleaned = true ∧ s.returned.length = 3 :=
+  IoHold.witness_reaches_cleanup
 
 end C14
